@@ -208,6 +208,9 @@ func (u *Unit) setContents(st *State, key string, c *Term) {
 // writeBytes performs a strong update of [lo, lo+n) (absolute offsets) of the
 // region blk; src gives the new value at absolute index j.
 func (u *Unit) writeBytes(st *State, fn string, blk *Term, lo, n *Term, src func(j *Term) *Term, what string) {
+	if u.specMode == 0 {
+		u.StoresSeen++
+	}
 	r := u.regionOf(st, blk)
 	if !r.Fresh {
 		u.frameWrite(st, r, what)
@@ -283,7 +286,7 @@ func (u *Unit) keyedCell(key string, t types.Type, sym, old bool) *Cell {
 }
 
 func (u *Unit) listCell(l *ListObj, i int) *Cell {
-	return u.keyedCell(fmt.Sprintf("list%d[%d]", l.ID, i), l.Elem, l.Sym, l.Sym)
+	return u.keyedCell(fmt.Sprintf("list%d[%d]", l.ID, i), l.Elem, l.Sym, l.Sym && !l.New)
 }
 
 func (u *Unit) newList(elem types.Type, sym bool) *ListObj {
@@ -330,6 +333,9 @@ func (u *Unit) loadCell(st *State, c *Cell) Val {
 }
 
 func (u *Unit) storeCell(st *State, c *Cell, v Val) {
+	if u.specMode == 0 {
+		u.StoresSeen++
+	}
 	if l := u.symIdxCells[c.ID]; l != nil && u.specMode == 0 {
 		// store through a symbolic list position: every element may be the target
 		for key, oc := range u.cellIdx {
@@ -528,6 +534,7 @@ func (u *Unit) freshVal(st *State, t types.Type, name string, input bool) Val {
 		u.assume(And(Le(IntLit(0), l), Le(l, cp), Le(cp, BigLit(MaxLen))))
 		if !isByte(x.Elem()) {
 			lst := u.newList(x.Elem(), true)
+			lst.New = !input // result of a call made during execution: not caller-visible state
 			blk := u.newInt(name + "_lblk")
 			u.assume(Le(IntLit(0), blk))
 			u.assume(Implies(Eq(blk, IntLit(0)), Eq(cp, IntLit(0))))
